@@ -1,12 +1,11 @@
-"""C18 - normalisation statistics, deltas and returns equal their defining formulas.
-
-Minimal wrapper: the bounded run-time contracts live in contracts/C18_rt.py (the deductive part, when
-it exists, is added here).
-"""
-from contracts import C18_rt
+"""C18 - normalisation statistics, deltas and returns equal their defining formulas."""
+from contracts import C18_rt, C18_vc
+from vf.pyvc import api
 
 CHECKERS = dict(C18_rt.CHECKERS)
 
 
 def run(ctx):
+    api.run_vcs(ctx, C18_vc.vcs(ctx), {"C18.S.return_recurrence": "real time_distributed_return source: R_t = r_t + gamma R_(t+1), R beyond the horizon 0, gamma = 0 short-cut; all rewards and discount factors (real arithmetic)"},
+                bounded="horizons T<=4 (6), batch 1-2, both layouts; ALL rewards and discount factors")
     C18_rt.run_bounded(ctx)
